@@ -412,6 +412,32 @@ func (o *Oracle) checkConvergence() {
 			}
 		}
 		v.Facts["server_holds_uncommitted_config_without_its_own_vote"] = fmt.Sprint(stuck)
+		// a voter of the newest configuration that still holds an older configuration without
+		// the candidates refuses them its vote ("node is not in configuration")
+		excl := false
+		for _, c := range w.liveIncs() {
+			_, _, clatest, _ := c.r.VerifConfigurations()
+			if !isVoter(clatest, c.node.id) {
+				continue
+			}
+			for _, id := range voters(clatest) {
+				vn := w.nodeByID(id)
+				if vn == nil || vn.inc == nil || vn.inc.r == nil || vn == c.node {
+					continue
+				}
+				_, _, vlatest, _ := vn.inc.r.VerifConfigurations()
+				in := false
+				for _, sv := range vlatest.Servers {
+					if sv.ID == c.node.id {
+						in = true
+					}
+				}
+				if len(vlatest.Servers) > 0 && !in {
+					excl = true
+				}
+			}
+		}
+		v.Facts["a_voter_holds_an_older_configuration_without_the_candidate"] = fmt.Sprint(excl)
 		w.ended = true
 	}
 }
